@@ -13,6 +13,13 @@ def handle (ws : List String) : String :=
       | .ok () => "ok"
       | .error e => e.name
     | _ => "bad-op"
+  | "mc" :: rest =>
+    match rest.mapM (·.toNat?) with
+    | some [sl, memHp, ssp, sp, hp, prevHp, dst, src, len] =>
+      match memcopyOutcome Gen.memSize sl memHp { sp := sp, ssp := ssp, hp := hp, prevHp := prevHp } dst src len with
+      | .ok () => "ok"
+      | .error e => e.name
+    | _ => "bad-op"
   | _ => "bad-op"
 
 def run : IO Unit := lineLoopPure handle
